@@ -80,7 +80,7 @@ Qed.
 
 Lemma aas5_data_overflow c op len s :
   op = 0 \/ op = 1 \/ op = 2 -> 2^63 <= rlen s + len ->
-  aas5 c op len s = (AErr RReadLimit, s <| rlen := rlen s + len |>).
+  aas5 c op len s = (AErr RReadLimit, send WCloseTooBig (s <| rlen := rlen s + len |>)).
 Proof.
   intros Hop Hlen. unfold aas5. cbv zeta.
   unfold c_TextMessage, c_BinaryMessage, c_continuationFrame.
@@ -219,7 +219,7 @@ Lemma advance_data_overflow L k c s f rest :
   pending (br s) = encode_frame f ++ rest ->
   2^63 <= (if opcode f =? 0 then rlen s else 0) + plen f ->
   exists s', advance_after_skip c s = (AErr RReadLimit, s') /\
-    wlog s' = wlog s /\ closesent s' = false /\
+    wlog s' = wlog s ++ [WCloseTooBig] /\ closesent s' = true /\
     pending (br s') = wire_payload f ++ rest /\
     rem s' = plen f /\ binv (br s').
 Proof.
@@ -228,7 +228,10 @@ Proof.
     as (s5 & Hadv & Hrinv5 & Hrem5 & Hfin5 & Hrlen5 & Hp5 & Hun5 & Hdec5 & Hwl5 & Hop).
   pose proof Hrinv5 as (Hinv5 & _ & _ & Herr5 & Hoof5 & Hcs5 & Hrl5 & Hec5).
   rewrite Hadv, aas5_data_overflow; [|exact Hop|rewrite Hrlen5; exact Hlen].
-  eexists. split; [reflexivity|]. rsimpl. auto 10.
+  eexists. split; [reflexivity|].
+  unfold send.
+  replace (closesent (s5 <| rlen := rlen s5 + plen f |>)) with (closesent s5) by reflexivity.
+  rewrite Hcs5. rsimpl. rewrite Hwl5. auto 10.
 Qed.
 
 (* ---------- a 64-bit length field with the top bit set: refused on the raw bytes ---------- *)
@@ -239,7 +242,8 @@ Lemma top_bit_after_skip c s b0 b1 len rest :
   N.land b1 127 = 127 -> 2^63 <= len -> len < 2^64 ->
   hdr_reject c (rfin s) b0 b1 = false ->
   exists s', advance_after_skip c s = (AErr RReadLimit, s') /\
-    wlog s' = wlog s /\ closesent s' = closesent s /\ hlog s' = hlog s /\
+    wlog s' = (if closesent s then wlog s else wlog s ++ [WCloseTooBig]) /\
+    closesent s' = true /\ hlog s' = hlog s /\
     pending (br s') = rest /\ binv (br s').
 Proof.
   intros Hinv Hbs Hp H127 Hlo Hhi Hrej.
@@ -265,7 +269,9 @@ Proof.
   rewrite Hrd3. cbv beta iota.
   rewrite be_roundtrip by (change (256 ^ N.of_nat 8) with (2^64); exact Hhi).
   replace (2^63 <=? len) with true by lia.
-  eexists. split; [reflexivity|]. rsimpl. auto 10.
+  eexists. split; [reflexivity|]. unfold send.
+  change (closesent (s2 <| br := b3 |>)) with (closesent s2). rewrite E3.
+  destruct (closesent s) eqn:Ecs; rsimpl; rewrite ?E2, ?E3, ?E4; auto 10.
 Qed.
 Opaque aas2 aas3.
 
@@ -1090,10 +1096,10 @@ Theorem data_frame_step_limit L k c s f rest :
    exists s', advance_frame c s = (AErr RReadLimit, s') /\
      wlog s' = wlog s ++ [WCloseTooBig] /\ closesent s' = true /\
      pending (br s') = wire_payload f ++ rest /\ rlen s' = rl /\ rem s' = plen f) /\
-  (* the running sum leaves the int64 range: ErrReadLimit, no close frame, header consumed *)
+  (* the running sum leaves the int64 range: the same -- ErrReadLimit, close 1009, header consumed *)
   (2^63 <= rl ->
    exists s', advance_frame c s = (AErr RReadLimit, s') /\
-     wlog s' = wlog s /\ closesent s' = false /\
+     wlog s' = wlog s ++ [WCloseTooBig] /\ closesent s' = true /\
      pending (br s') = wire_payload f ++ rest /\ rem s' = plen f).
 Proof.
   intros Hrinv Hwf Hacc Hctl Hrem Hp rl.
@@ -1112,14 +1118,16 @@ Proof.
 Qed.
 
 (* a 64-bit length field with the top bit set, on the raw bytes: refused as soon as the eight
-   length bytes are read -- not even the mask key is consumed, no close frame is written *)
+   length bytes are read -- not even the mask key is consumed; the 1009 close frame is written
+   (unless a close frame went out before) *)
 Theorem top_bit_length_refused c s b0 b1 len rest :
   binv (br s) -> (8 <= bsize (br s))%nat -> rem s = 0 ->
   pending (br s) = b0 :: b1 :: be_enc 8 len ++ rest ->
   N.land b1 127 = 127 -> 2^63 <= len -> len < 2^64 ->
   hdr_reject c (rfin s) b0 b1 = false ->
   exists s', advance_frame c s = (AErr RReadLimit, s') /\
-    wlog s' = wlog s /\ closesent s' = closesent s /\ hlog s' = hlog s /\
+    wlog s' = (if closesent s then wlog s else wlog s ++ [WCloseTooBig]) /\
+    closesent s' = true /\ hlog s' = hlog s /\
     pending (br s') = rest /\ binv (br s').
 Proof.
   intros Hinv Hbs Hrem Hp H127 Hlo Hhi Hrej. rewrite (advance_frame_rem0 c s Hrem).
@@ -1342,7 +1350,7 @@ Definition aas5I (c:rcfg) (op len:N) (s:rst) (lg:list nat) : adv * rst * list na
   if iscont || isdata then
     let rl := rlen s + len in
     let s := s <| rlen := rl |> in
-    if 2^63 <=? rl then (AErr RReadLimit, s, lg)
+    if 2^63 <=? rl then (AErr RReadLimit, send WCloseTooBig s, lg)
     else if (0 <? rlimit s) && (rlimit s <? rl) then (AErr RReadLimit, send WCloseTooBig s, lg)
     else (AFrame op, s, lg)
   else
@@ -1395,9 +1403,11 @@ Definition aas3I (c:rcfg) (op:N) (mask:bool) (len7:N) (s:rst) (lg:list nat) : ad
        (match e with Some e => inr e | None => inl (be_dec p) end, s, lg ++ [2%nat])
      else if len7 =? 127 then
        let '(p, e, s) := rd 8 s in
-       (match e with Some e => inr e
-                   | None => if 2^63 <=? be_dec p then inr RReadLimit else inl (be_dec p) end, s,
-        lg ++ [8%nat])
+       match e with
+       | Some e => (inr e, s, lg ++ [8%nat])
+       | None => if 2^63 <=? be_dec p then (inr RReadLimit, send WCloseTooBig s, lg ++ [8%nat])
+                 else (inl (be_dec p), s, lg ++ [8%nat])
+       end
      else (inl len7, s, lg) in
   match lenr with inr e => (AErr e, s, lg) | inl len => aas4I c op mask len s lg end.
 
